@@ -1492,6 +1492,18 @@ class Evaluator:
             fn = self._getter_global(fn)
         if fn[0] == "call" and fn[1] in (("ext", "operator.attrgetter"), ("ext", "operator.itemgetter")) and len(fn[2]) == 1 \
                 and len(arg_terms) == 1 and fn[2][0][0] == "const":
+            pass
+        if fn[0] == "call" and fn[1] == ("ext", "operator.attrgetter") and len(fn[2]) > 1 and len(arg_terms) == 1 \
+                and all(a[0] == "const" and isinstance(a[1], str) for a in fn[2]):
+            outs = []
+            for a in fn[2]:
+                v = arg_terms[0]
+                for part in a[1].split("."):
+                    v = ("attr", v, part)
+                outs.append(v)
+            return ("tuple", tuple(outs))
+        if fn[0] == "call" and fn[1] in (("ext", "operator.attrgetter"), ("ext", "operator.itemgetter")) and len(fn[2]) == 1 \
+                and len(arg_terms) == 1 and fn[2][0][0] == "const":
             if fn[1][1].endswith("attrgetter") and isinstance(fn[2][0][1], str):
                 v = arg_terms[0]
                 for part in fn[2][0][1].split("."):
@@ -1673,6 +1685,30 @@ class Evaluator:
             ev_ = self.emit("call", live, t_, n)
             ev_.kw_order = []  # type: ignore[attr-defined]
             return t_
+        # zip(xs, itertools.count()) pairs every x with its position: enumerate with the components swapped
+        if f == ("builtin", "zip") and "zip" not in self.env and plain and len(args) == 2:
+            cnt = [a == ("call", ("ext", "itertools.count"), (), ()) or a == ("call", ("ext", "itertools.count"), (("const", 0),), ()) for a in args]
+            if cnt.count(True) == 1:
+                xs = args[1] if cnt[0] else args[0]
+                base, xelt, lid = xs, None, None
+                if xs[0] == "comp" and xs[1] == "gen" and len(xs[3]) == 1 and not xs[3][0][2] and xs[3][0][0] in self.loops:
+                    lid, base = xs[3][0][0], xs[3][0][1]
+                    xelt = xs[2]
+                en = ("call", ("builtin", "enumerate"), (base,), ())
+                if lid is None:
+                    lid = self.fresh("L")
+                    self.loops[lid] = LoopInfo(lid, "comp", en, n, self.loop_stack[-1] if self.loop_stack else None, "_")
+                    item = ("sub", ("elem", lid), ("const", 1))
+                else:
+                    # the generator's own loop now runs over enumerate(base): its element is component 1
+                    item = fold_sub(subst(xelt, {("elem", lid): ("sub", ("elem", lid), ("const", 1))}))
+                    self.loops[lid].iter = en
+                    for e_ in self.events:
+                        if lid in e_.loops:
+                            e_.term = subst(e_.term, {("elem", lid): ("sub", ("elem", lid), ("const", 1))})
+                            e_.live = subst(e_.live, {("elem", lid): ("sub", ("elem", lid), ("const", 1))})
+                idx = ("sub", ("elem", lid), ("const", 0))
+                return ("comp", "gen", ("tuple", (idx, item) if cnt[0] else (item, idx)), ((lid, en, ()),))
         # zip / map over several views of one **kwargs dict (d, d.keys(), d.values(), d.items(), generators over them) walk the
         # dict's items in lock step: one generator over d.items()
         if f in (("builtin", "zip"), ("builtin", "map")) and f[1] not in self.env and plain:
